@@ -513,9 +513,12 @@ PROPS["C07"] = {
              "run), never a panic, never an output. P5: identical streams give identical wire logs (multiset of from, to, round, "
              "body), outputs and byte counts for the scenarios frozen as sequential (all but Gennaro, whose batch proofs read the "
              "reader from several goroutines). P6: every sampling party reads > 0 bytes of ITS reader (counts reported). "
+             "Oblivious transfer (ecbbot, VSOT, SoftSpoken extension; driven round by round, bytes counted PER ROUND): P1/P2/P3/P5/P6 "
+             "as above and P4 aimed at one consuming round - the error must surface in exactly that round. "
              "Samplers outside protocols: KW / Feldman / Pedersen dealing (same stream => same shares; other stream => every "
-             "holder's share differs; starved => error), hash and Pedersen commitments, Paillier and ElGamal encryption and key "
-             "generation; Boldyreva BLS partial signatures as the deterministic control. Non-trivial: every case (the two streams "
+             "holder's share differs; starved => error), hash and Pedersen commitments, Paillier and ElGamal encryption, ElGamal / "
+             "Blum / safe-prime / ring-Pedersen key generation (RSA-style prime generation is the catalogued finding "
+             "C07-prime-generation-ignores-reader and is excluded); Boldyreva BLS partial signatures as the deterministic control. Non-trivial: every case (the two streams "
              "differ by construction and every scenario is randomised); distinct = (scenario, party position, check kind, starvation mode)."),
     "assumptions": COMMON_ASSUME + [
         "the harness random source is a mutex-protected SHAKE256 stream per party; a 2^-128 coincidence of two sampled values is treated as impossible",
@@ -543,3 +546,8 @@ PROPS["C04"] = {
     "quick": {"scale": 1, "shards": 16, "timeout_s": 1500},
     "thorough": {"scale": 8, "shards": 16, "timeout_s": 7200},
 }
+
+
+# native fuzz campaigns in the thorough tier (one per Fuzz* target of the package)
+if "C13" in PROPS:
+    PROPS["C13"]["thorough"]["fuzz"] = {"targets": "^Fuzz", "fuzztime": "40s"}
